@@ -234,12 +234,14 @@ class AsynchronousMemory(Logic):
         radd = self.read_address.get()
         wadd = self.write_address.get()
         
+        # the write is transparent (as in the Verilog body): write first, so that
+        # evaluating propagate again with the same inputs changes nothing
+        if (self.write.get()):
+            self.data[wadd] = self.writedata.get()
+        
         # always reading
         #print(f'reading address {add} = {self.data[add]}')
         self.readdata.put(self.data[radd])
-        
-        if (self.write.get()):
-            self.data[wadd] = self.writedata.get()
             
         
     def verilogBody(self):
